@@ -78,8 +78,31 @@ class Prov:
                     self.defs.setdefault(d["l"], []).append((bi, None, "call", t))
 
     # ------------------------------------------------------------------------------
+    def _promoted(self, i):
+        key = ("promoted", i)
+        if key in self._memo:
+            return self._memo[key]
+        res = ("promoted", i)
+        try:
+            body = self.fn.d["promoted"][i]
+
+            class _B:
+                pass
+            b = _B()
+            b.blocks = body["blocks"]
+            b.locals = body["locals"]
+            b.arg_count = 0
+            b.d = {"promoted": []}
+            res = Prov(b).local(0)
+        except Exception:
+            pass
+        self._memo[key] = res
+        return res
+
     def operand(self, op, _inprog=None):
         if "const" in op:
+            if "promoted" in op["const"] and hasattr(self.fn, "d"):
+                return self._promoted(op["const"]["promoted"])
             return const_term(op["const"])
         pl = op.get("copy") or op.get("move")
         return self.place(pl, _inprog)
